@@ -15,7 +15,10 @@ def jobs(tier):
         j.count_funcs = {'integer_promotion', 'arithmetic_conversion', 'signed_integer_type_p', 'floating_type_p',
                          'standard_integer_type_p', 'integer_type_p', 'init_type'}
         J.append(j)
+    # by-value aggregates at the c2mir/native boundary: register exhaustion rule (shared with C08)
+    from checks import c08
+    J.append(c08.agg_job())
     return J
 
 
-META = {'functions': ['integer_promotion', 'arithmetic_conversion'], 'undecided_part': '', 'trusted_base': ['spec/c11_types.h (C11 6.3.1.1, 6.3.1.8; LP64, signed plain char)']}
+META = {'functions': ['integer_promotion', 'arithmetic_conversion', 'process_aggregate_arg'], 'undecided_part': '', 'trusted_base': ['spec/c11_types.h (C11 6.3.1.1, 6.3.1.8; LP64, signed plain char)']}
